@@ -262,6 +262,13 @@ AV Interp::peek(int r, int64_t off, int n, bool fp) {
   return assemble(ps, n, fp);
 }
 AV Interp::load(const AV &p, int n, bool fp, int align, int src) {
+  if (p.k == AV::T && TT.t[p.t].op == TT.OP_SELECT) { // a pointer chosen by a data-dependent condition (std::min/max return references at -O0)
+    const Term x = TT.t[p.t]; AV pa = avOfTerm(x.a[1]), pb = avOfTerm(x.a[2]);
+    if ((pa.k == AV::PTR || (pa.k == AV::T && TT.t[pa.t].op == TT.OP_SELECT)) && (pb.k == AV::PTR || (pb.k == AV::T && TT.t[pb.t].op == TT.OP_SELECT))) {
+      AV va = load(pa, n, fp, align, src), vb = load(pb, n, fp, align, src);
+      return select(avOfTerm(x.a[0]), va, vb);
+    }
+  }
   if (p.k != AV::PTR || p.region < 0 || p.region >= (int)S.R.size()) { err(p.k == AV::TOP || p.k == AV::T ? "load through data-dependent address" : "load via non-pointer"); return AV::Top(n); }
   Region &G = S.R[p.region];
   if (p.off < 0 || p.off + n > G.size) {
@@ -269,7 +276,7 @@ AV Interp::load(const AV &p, int n, bool fp, int align, int src) {
     else err("out-of-region load in an unmonitored stage (" + G.name + ")");
     return AV::Top(n);
   }
-  if (monitor && align > 1) {
+  if (monitor && align > 1 && G.declared) { // placement of compiler-managed locals is the compiler's business (trusted base)
     int64_t g = G.align; if (p.off) { int64_t lowbit = p.off & -p.off; g = std::min<int64_t>(g, lowbit); }
     if (align > g) find("misaligned", p.region, p.off, n, align, src, "guaranteed alignment " + std::to_string(g));
   }
@@ -283,7 +290,7 @@ void Interp::store(const AV &p, const AV &v, int n, int align, int src) {
     else err("out-of-region store in an unmonitored stage (" + G.name + ")");
     return;
   }
-  if (monitor && align > 1) {
+  if (monitor && align > 1 && G.declared) {
     int64_t g = G.align; if (p.off) { int64_t lowbit = p.off & -p.off; g = std::min<int64_t>(g, lowbit); }
     if (align > g) find("misaligned", p.region, p.off, n, align, src, "guaranteed alignment " + std::to_string(g));
   }
@@ -353,6 +360,7 @@ int Interp::globalRegion(const GlobalVariable *GV) {
   G.align = GV->getAlign() ? (int)GV->getAlign()->value() : (int)DL->getABITypeAlignment(GV->getValueType());
   int r = addRegion(G); gmap[GV] = r;
   if (GV->hasInitializer()) initConst(r, 0, GV->getInitializer());
+  else if (monitor && GV->getName().contains("6Fastor")) find("undefined-global", r, 0, 0, 0, -1, "a Fastor object is referenced but not defined in the translation unit (header-only library: the program would not link): " + GV->getName().str().substr(0, 120));
   return r;
 }
 void Interp::initConst(int r, int64_t off, const Constant *C) {
@@ -790,7 +798,7 @@ bool Interp::step(Function &Fn, Frame &F, Instruction &I, Guard &guard) {
         if (StructType *ST = GTI.getStructTypeOrNull()) off += DL->getStructLayout(ST)->getElementOffset(idx.i);
         else off += idx.i * (int64_t)DL->getTypeAllocSize(GTI.getIndexedType());
       }
-      if (!ok) { if (base.k == AV::PTR) err("data-dependent address (GEP index is not a constant)"); else err("GEP on non-pointer"); }
+      if (!ok) { if (base.k == AV::PTR) { if (getenv("IRFLOW_DEBUG")) { std::string str; raw_string_ostream os(str); I.print(os); fprintf(stderr, "GEP: %s\n", str.c_str()); for (auto GTI = gep_type_begin(GEP), E = gep_type_end(GEP); GTI != E; ++GTI) { VV iv = get(F, GTI.getOperand()); fprintf(stderr, "   idx kind=%d term=%s\n", (int)iv[0].k, iv[0].k == AV::T ? TT.str(iv[0].t).c_str() : ""); } } err("data-dependent address (GEP index is not a constant)"); } else err("GEP on non-pointer"); }
       out.push_back(ok ? AV::Ptr(base.region, off) : AV::Top(8));
     }
     F.env[&I] = out; return true;
@@ -834,6 +842,7 @@ bool Interp::step(Function &Fn, Frame &F, Instruction &I, Guard &guard) {
     AV p = get(F, L->getPointerOperand())[0]; Type *T = L->getType(); int al = (int)L->getAlign().value(); int src = monitor ? srcOf(I) : -1;
     std::vector<std::pair<Type *, int64_t>> lay; leafLayout(T, 0, lay);
     VV r;
+    if (p.k == AV::T && TT.t[p.t].op == TT.OP_SELECT && lay.size() == 1) { Type *ET = lay[0].first; AV v = load(p, sbytes(ET), ET->isFloatingPointTy(), al, src); F.env[&I] = VV{v}; return true; }
     if (p.k != AV::PTR) { err(p.k == AV::TOP || p.k == AV::T ? "load through data-dependent address" : "load via non-pointer"); F.env[&I] = VV(lay.size(), AV::Top(sbytes(T))); return true; }
     // one access record for the whole load (alignment applies to the first byte)
     if (lay.size() > 1) { int64_t total = DL->getTypeStoreSize(T); Region &G = S.R[p.region]; if (p.off < 0 || p.off + total > G.size) { if (monitor) find("oob-load", p.region, p.off, (int)total, al, src, "region size " + std::to_string(G.size)); else err("out-of-region load in an unmonitored stage (" + G.name + ")"); F.env[&I] = VV(lay.size(), AV::Top(sbytes(T))); return true; } }
@@ -843,11 +852,12 @@ bool Interp::step(Function &Fn, Frame &F, Instruction &I, Guard &guard) {
       if (ET->isIntegerTy(1)) { AV v = load(AV::Ptr(p.region, p.off + lf.second), 1, false, firstLeaf ? al : 1, src); r.push_back(v.k == AV::INT ? AV::Int(v.i & 1 ? -1 : 0, 1) : (v.k == AV::T ? AV::Tm(TT.mk(TT.OP_TRUNC1, {v.t}, 0, 1), 1) : v)); }
       else {
         AV v = load(AV::Ptr(p.region, p.off + lf.second), sz, fp, firstLeaf ? al : 1, src);
-        if (ET->isPointerTy() && v.k != AV::PTR && v.k != AV::UNDEF) { if (!(v.k == AV::INT && v.i == 0)) err("pointer loaded from non-pointer bytes"); else v = AV::Ptr(-1, 0); }
+        if (ET->isPointerTy() && v.k != AV::PTR && v.k != AV::UNDEF) { if (v.k == AV::T && TT.t[v.t].op == TT.OP_SELECT) { /* pointer select: resolved when dereferenced */ } else if (!(v.k == AV::INT && v.i == 0)) err("pointer loaded from non-pointer bytes"); else v = AV::Ptr(-1, 0); }
         r.push_back(v);
       }
       firstLeaf = false;
     }
+    if (getenv("IRFLOW_DEBUG")) for (auto &v : r) if (v.k == AV::UNDEF) { std::string str; raw_string_ostream os(str); I.print(os); fprintf(stderr, "UNDEF LOAD: %s  [region %s off %ld]\n", str.c_str(), S.R[p.region].name.c_str(), (long)p.off); break; }
     F.env[&I] = r; return true;
   }
   if (auto *St = dyn_cast<StoreInst>(&I)) {
